@@ -44,6 +44,7 @@ class Ctx:
         self.kf = load_known_findings()
         self.kf_seen = set()
         self.timing = []
+        self.hooks = {}
 
     def cleanup(self):
         shutil.rmtree(self.scratch, ignore_errors=True)
@@ -203,6 +204,9 @@ class Ctx:
         for l in lines:
             st['events'] += 1
             if l.startswith('{"e":"reset"'): st['executions'] += 1
+            elif l.startswith('{"e":"hk"'):
+                m = re.match(r'\{"e":"hk","tag":"([^"]+)"', l)
+                if m: self.hooks[m.group(1)] = self.hooks.get(m.group(1), 0) + 1
             elif l.startswith('{"e":"end"') or l.startswith('{"e":"fn"'):
                 st['calls'] += 1
                 m = re.match(r'\{"e":"(?:end|fn)","f":"([^"]+)"', l)
@@ -270,7 +274,7 @@ class Ctx:
             distinct_calls_multi_limb=len(self.nontrivial),
             functions_exercised=len(self.funcs), calls_per_function=dict(sorted(self.funcs.items())),
             known_findings_reproduced=sorted({k[1] for k in self.known}),
-            notes=self.notes, timing=self.timing,
+            notes=self.notes, timing=self.timing, hook_labels_witnessed=dict(sorted(self.hooks.items())),
         )
         if extra_cov: cov.update(extra_cov)
         ev = dict(property_id=self.prop, tier=self.tier, seed=self.seed, level=level, coverage=cov,
